@@ -113,6 +113,9 @@ add("C06", "formula", "exploration", "runtime monitor: differential comparison o
 add("C05", "formula", "exploration", "runtime monitor: invariant at a hook (every formula cell recomputed by the reference evaluator from the values the engine currently holds) after every step of random edit histories, plus #CIRC! clauses on the static reference graph",
     "After every step of random UserModel histories (core-language formulas that may form cycles, constants, structural edits, paste, undo/redo) each formula cell must show the value RE computes from the current values of the cells it reads; #CIRC! may only appear on a cycle or next to a cell showing it, and must appear on every cycle whose edges are always evaluated and error-propagating.",
     RE_NOTE + " Cells on a static reference cycle are judged by the #CIRC! clauses only. Cycle clauses are skipped for workbooks with dynamic references.")
+add("C08", "formula", "exploration", "runtime monitor: invariant at quiescent points (scan of every stored and shown number for NaN/infinity) after evaluation, after to_bytes/from_bytes and after xlsx import",
+    "A sweep of every built-in function (enumerated through the verif_hooks re-export) with threshold arguments, ~120 calls that overflow by design in scalar and array form, overflowing arithmetic in scalar / array-literal / range / SEQUENCE context, typed numbers beyond the double range and xlsx files with NaN/inf/1E+999 in <v>; after each, every cell is scanned.",
+    "Arguments of the generic sweep are kept below magnitudes that could become a gigantic size or loop bound (slow or memory-exhausting evaluations are not this property's subject; inputs that panic are counted and left to C11/C25). A case that does not finish in 20 s is abandoned and counted as inconclusive.")
 
 NOT_YET = {}
 
